@@ -10,6 +10,10 @@ SUMMARY = re.compile(r"^summary (\S+) (.*)$")
 def run(chk, binp, prop, n, extra=(), timeout=900, seed_offset=0):
     """Runs `rbv e2e <prop>`; returns (fails, summary, crashed). fails: list of dict(kind, font, req, detail)."""
     trace = "%s/e2e-%s-%d.trace" % (C.BUILD, prop, chk.seed)
+    import os
+    os.makedirs(os.path.join(C.REPLAYS, "fonts"), exist_ok=True)
+    os.environ["RBV_DUMP_DIR"] = os.path.join(C.REPLAYS, "fonts")
+    C.ENV["RBV_DUMP_DIR"] = os.path.join(C.REPLAYS, "fonts")
     rc, out, err = C.run_rbv(binp, ["e2e", prop.lower(), "--seed", chk.seed + seed_offset, "--n", n, "--trace", trace] + list(extra), timeout=timeout)
     fails = []
     summary = {}
